@@ -39,13 +39,13 @@ RULE = ("one case = one dataset evaluated under every scheme of the tier's list 
         "quick: every dataset over R(3) with 1..2 rankings (canonical names) plus 400 seeded datasets n<=6, m<=5 "
         "cycling through 6 element-name kinds, 18 schemes (the four families, multiples x2 x1/4 x3 x1/8192, four "
         "schemes proportional to a family on B only, six foreign schemes). thorough: R(3) m<=3, R(4) m<=2 (datasets of "
-        "3 rankings and those over 4 names under a rotating window of 9 of the 36 schemes), 4000 samples under all 36 "
+        "3 rankings and those over 4 names under a rotating window of 9 of the 36 schemes), 20000 samples under all 36 "
         "schemes; plus 14 (140) datasets of 3-4 ranking types with multiplicities up to 40 (up to 1500 for every fourth), whose "
         "distinct means differ by as little as 1e-7 (still distinct as floats). Non-trivial = "
         "universe of >= 2 elements; distinct = distinct (dataset, scheme, variant).")
 SCOPE = {"quick": "all datasets n<=3 m<=2 (701) + 400 sampled n<=6 m<=5; 18 schemes; 2 variants",
          "thorough": "all datasets n<=3 m<=2 x 36 schemes; n<=3 m=3 (17.6k) and n=4 m<=2 (21.9k) x 9 rotating "
-                     "schemes; 4000 sampled n<=6 m<=5 x 36 schemes; 2 variants"}
+                     "schemes; 20000 sampled n<=6 m<=5 x 36 schemes; 2 variants"}
 EXHAUSTIVE = {"quick": False, "thorough": False}
 CHUNK = 4
 
@@ -79,7 +79,7 @@ def gen_cases(tier, seed):
         big = i % 4 == 3
         mult = [rng.randint(200, 1500) if big else rng.randint(1, 40) for _ in base]
         yield {"rankings": base, "mult": mult, "schemes": si, "namekind": kinds[i % len(kinds)]}
-    for i in range(400 if quick else 4000):
+    for i in range(400 if quick else 20000):
         d = D.random_dataset(rng, 6, 5, complete=(i % 4 == 0), n_min=2)
         kind = kinds[i % len(kinds)]
         if kind == "canon" and max(D.universe_of(d)) <= 3 and len(d) <= 3:
